@@ -32,6 +32,9 @@ type c16Case struct {
 	// Tight: the tree has one file that cannot fit into the destination, between files that can: the copy may
 	// fail, but it must not report success unless the destination equals the source
 	Tight bool `json:"tight,omitempty"`
+	// Again: the destination is not empty: an earlier generation of the same tree (same paths; files longer,
+	// shorter, equally long, all with other content) was copied into it before
+	Again bool `json:"again,omitempty"`
 }
 
 // bigFS is a synthetic read-only fs.FS holding one large file generated on the fly (streaming path).
@@ -233,6 +236,36 @@ func c16Run(c core.Case, env *core.Env) core.Result {
 			res.Inconclusive = "could not create the destination: " + err.Error()
 			return res
 		}
+		if p.Again {
+			var t0 Tree
+			for i, n := range t {
+				if !n.Dir {
+					switch i % 4 {
+					case 0:
+						n.Size = n.Size*2 + 9000 // the earlier version was longer: the copy must cut it
+					case 1:
+						n.Size = n.Size / 3
+					case 2:
+						n.Size += 1 + i
+					}
+					n.Seed ^= 0x5EED
+				}
+				t0 = append(t0, n)
+			}
+			src0, cleanup0, err := c16Source("osdir", t0, env, core.Hash(c.ID)+"-gen0")
+			if err != nil {
+				res.Inconclusive = "could not build the earlier generation: " + err.Error()
+				return res
+			}
+			var e0 error
+			pi := core.Guard(func() { e0 = fsync.CopyFileSystem(src0, dst) })
+			cleanup0()
+			if pi != nil || e0 != nil {
+				res.Inconclusive = fmt.Sprintf("copying the earlier generation failed: %v %v", e0, pi)
+				return res
+			}
+			res.Mark("copy into a destination that holds an earlier generation of the tree")
+		}
 		var cerr error
 		if pi := core.Guard(func() { cerr = fsync.CopyFileSystem(src, dst) }); pi != nil {
 			fail("copy-panic", pi.Top+":"+pi.Class, "CopyFileSystem(%s -> %s) panicked: %s", p.Src, p.Dst, pi.Msg)
@@ -284,6 +317,9 @@ func c16Run(c core.Case, env *core.Env) core.Result {
 				cause := p.Src + "->" + p.Dst
 				if p.Tight {
 					cause = "success-reported-for-a-destination-without-room/" + p.Dst
+				}
+				if p.Again {
+					cause = "destination-held-an-earlier-generation/" + p.Dst
 				}
 				if strings.Contains(detail, "lost+found") || strings.Contains(detail, ".DS_Store") {
 					cause = "excluded-name-copied"
@@ -602,7 +638,7 @@ func init() {
 		Rule:        "CopyFileSystem from {os directory, fat32, ext4, iso9660 (Rock Ridge), squashfs} into {fat12, fat16, fat32, ext4}: generated trees (directories incl. an empty one, files of 0..100000 bytes around the 32 KiB compare-chunk edges, FAT-legal long names, the excluded names lost+found/.DS_Store present in the source); the re-opened destination is walked by the harness and matched against the source tree by content and exact names, CompareFS must accept the faithful copy in both argument orders and reject one real byte flip; a file above the 64 MiB streaming threshold is copied from a synthetic generator source that hands out odd-sized pieces and ends either with a separate (0, EOF) or with the last piece and EOF together, as the library's own handles do (one pairing in quick, all in thorough); CompareFS on in-memory trees must return nil exactly for equal trees over every single-point mutation (byte flipped at first/middle/last/32 KiB chunk edges +-1, file shortened/lengthened by one, entry missing, extra file, extra empty directory, file<->directory swap, differences only under excluded names, an extra entry sorting first/last in every directory) in both orders, each also with entries bearing the excluded names (as files and as directories) placed in every directory of both sides, of the mutant only and of the original only, and with one side delivering file contents in short reads of varying sizes; non-trivial = a copy compared or a mutation evaluated; distinct = distinct (pairing, tree) / (mutation, iteration)",
 		Assumptions: []string{"trees are restricted to what every destination can represent (no symlinks, FAT-legal names)", "the destination's own empty lost+found (ext4) is ignored"},
 		MinSigs:     map[string]int{"quick": 150, "thorough": 3000},
-		NeedMarks:   []string{"streaming path (file > 64 MiB)", "compare mutations", "copy osdir->fat32", "copy squashfs->ext4", "copy iso9660->fat16", "copy ext4->fat12", "copy into a destination too small for one file: refused"},
+		NeedMarks:   []string{"streaming path (file > 64 MiB)", "compare mutations", "copy osdir->fat32", "copy squashfs->ext4", "copy iso9660->fat16", "copy ext4->fat12", "copy into a destination too small for one file: refused", "copy into a destination that holds an earlier generation of the tree"},
 		CPUSec:      900,
 		Cases: func(seed int64, tier string) []core.Case {
 			r := gen.New(seed ^ 0xC16)
@@ -621,6 +657,13 @@ func init() {
 			tight := [][2]string{{"osdir", "fat12"}, {"squashfs", "fat12"}, {"osdir", "fat16"}}
 			if tier == "thorough" {
 				tight = append(tight, [2]string{"fat32", "fat16"}, [2]string{"osdir", "fat32"}, [2]string{"osdir", "ext4"}, [2]string{"ext4", "fat12"}, [2]string{"iso9660", "fat12"})
+			}
+			again := [][2]string{{"osdir", "fat16"}, {"squashfs", "fat32"}, {"osdir", "ext4"}, {"fat32", "fat12"}}
+			if tier == "thorough" {
+				again = append(again, [2]string{"iso9660", "ext4"}, [2]string{"ext4", "fat16"}, [2]string{"osdir", "fat12"}, [2]string{"osdir", "fat32"}, [2]string{"squashfs", "ext4"})
+			}
+			for i, sd := range again {
+				cs = append(cs, core.MkCase(fmt.Sprintf("again-%s-%s-%d", sd[0], sd[1], i), "copy", r.Int63(), c16Case{Mode: "copy", Src: sd[0], Dst: sd[1], Again: true}))
 			}
 			for i, sd := range tight {
 				cs = append(cs, core.MkCase(fmt.Sprintf("tight-%s-%s-%d", sd[0], sd[1], i), "copy", r.Int63(), c16Case{Mode: "copy", Src: sd[0], Dst: sd[1], Tight: true}))
